@@ -11,7 +11,6 @@ use crate::gen::*;
 use crate::ops::*;
 use crate::trace::*;
 use kanata_parser::keys::OsCode;
-use kanata_state_machine::kanata::handle_fakekey_action;
 use kanata_state_machine::oskbd::{KeyEvent, KeyValue};
 use kanata_state_machine::{Kanata, ValidatedArgs};
 use kanata_tcp_protocol::ServerMessage;
@@ -141,7 +140,9 @@ impl Sim {
             self.requests.push(self.now);
         }
         if attempted_now {
-            self.attempts.push((self.now, reloaded, self.k.cur_cfg_idx));
+            // (the index that was tried: a failed reload puts cur_cfg_idx back - hook H6)
+            let tried = kanata_state_machine::verif_seam::LIVE_RELOAD_LAST_IDX.load(std::sync::atomic::Ordering::Relaxed);
+            self.attempts.push((self.now, reloaded, tried));
             self.attempt_pos.push((self.cur_op, self.gap_done));
             if reloaded {
                 // (this tick's key releases are emitted before the reload step of the same iteration)
@@ -225,7 +226,7 @@ impl Sim {
                         2 => kanata_parser::custom_action::FakeKeyAction::Tap,
                         _ => kanata_parser::custom_action::FakeKeyAction::Toggle,
                     };
-                    handle_fakekey_action(action, self.k.layout.bm(), kanata_parser::cfg::FAKE_KEY_ROW, i as u16);
+                    crate::exec_a::tcp_act_on_fake_key(&mut self.k, action, i as u16);
                 }
             }
             _ => {}
@@ -305,7 +306,7 @@ impl Prop for C15 {
         "C15"
     }
     fn rule_text(&self) -> String {
-        "case = 1-3 config files (generated from the action grammar; one key of the old config carries lrld / lrld-next / lrld-prev / (lrld-num n)); history = typing on the old config (keys held, tap-holds pending, one-shots active, macros running at the moment of the request), a storage fault or a new valid content written to the file that will be reloaded (valid / unbalanced / truncated / semantically rejected / empty / missing / directory / not UTF-8), the request (optionally twice back-to-back), release of everything, then typing on whatever config is active. Executed on the real Kanata::new + handle_time_ticks (hook H3) with a notification channel of capacity 1 or 100. Oracles: FAILED reload: no ConfigFileReload notification, and the whole output trace equals that of the same history on a twin configuration whose request key is (push-msg ...) instead of the reload action (the request changed nothing); SUCCESSFUL reload: applied once per pending request and only when no OS key is down or >= 1000 ms after the request, and a request never stays pending through more than 1100 consecutive idle ms, nothing is down afterwards, ConfigFileReload(file) then LayerChange(first layer) are offered to the channel, and the continuation typed from an idle state produces exactly the output a freshly started instance of the new file produces for the same continuation. non-trivial = a reload was attempted; distinct = files x history hash.".into()
+        "case = 1-3 config files (generated from the action grammar; one key of the old config carries lrld / lrld-next / lrld-prev / (lrld-num n)); history = typing on the old config (keys held, tap-holds pending, one-shots active, macros running at the moment of the request), a storage fault or a new valid content written to the file that will be reloaded (valid / unbalanced / truncated / semantically rejected / empty / missing / directory / not UTF-8), the request (optionally twice back-to-back), release of everything, then typing on whatever config is active. Executed on the real Kanata::new + handle_time_ticks (hook H3) with a notification channel of capacity 1 or 100. Oracles: FAILED reload: no ConfigFileReload notification, the current file index is unchanged, and the whole output trace equals that of the same history on a twin configuration whose request key is (push-msg ...) instead of the reload action (the request changed nothing); SUCCESSFUL reload: applied once per pending request and only when no OS key is down or >= 1000 ms after the request, and a request never stays pending through more than 1100 consecutive idle ms, nothing is down afterwards, ConfigFileReload(file) then LayerChange(first layer) are offered to the channel, and the continuation typed from an idle state produces exactly the output a freshly started instance of the new file produces for the same continuation. non-trivial = a reload was attempted; distinct = files x history hash.".into()
     }
     fn runs(&self, tier: Tier) -> u64 {
         match tier {
@@ -637,8 +638,46 @@ impl Prop for C15 {
             if !all_presses_seen {
                 o.count("twice.second-request-not-observed", 1);
             }
-            if (!any_ok_before_last && all_presses_seen && last.2 != *model_idx.last().unwrap()) || before_cont.iter().any(|x| !model_idx.contains(&x.2)) {
-                o.set_fail("C15:wrong-file-reloaded", format!("request {req} x{presses} over {nfiles} files must end at cfg{}, attempts (tick, ok, file) {:?}; requests seen at {:?}; still pending at the end: {}; current index {}", model_idx.last().unwrap(), before_cont, a.requests, a.k.verif_live_reload_requested(), a.k.cur_cfg_idx), vec![]);
+            // every attempt loads the file the request(s) registered since the previous attempt lead
+            // to, starting from the file in effect: a failed reload leaves the file in effect (and
+            // the position for next / prev) unchanged, a successful one moves it
+            let step = |i: usize| -> usize {
+                if req == "lrld" {
+                    i
+                } else if req == "lrld-next" {
+                    (i + 1) % nfiles
+                } else if req == "lrld-prev" {
+                    (i + nfiles - 1) % nfiles
+                } else {
+                    req.trim_end_matches(')').rsplit(' ').next().and_then(|n| n.parse::<usize>().ok()).map(|n| n - 1).unwrap_or(0)
+                }
+            };
+            let (mut cur, mut loaded, mut used) = (0usize, 0usize, 0usize);
+            let mut consistent = true;
+            for (_, ok, idx) in before_cont.iter().map(|x| **x) {
+                let mut i = cur;
+                let mut found = None;
+                for k in 1..=(presses - used.min(presses)).max(1) {
+                    i = step(i);
+                    if i == idx {
+                        found = Some(k);
+                        break;
+                    }
+                }
+                match found {
+                    Some(k) => used += k,
+                    None => consistent = false,
+                }
+                if ok {
+                    loaded = idx;
+                    cur = idx;
+                } else {
+                    cur = loaded;
+                }
+            }
+            let _ = (any_ok_before_last, last, &model_idx);
+            if !consistent || used > presses.max(before_cont.len()) {
+                o.set_fail("C15:wrong-file-reloaded", format!("request {req} x{presses} over {nfiles} files: attempts (tick, ok, file) {:?} do not follow from the file in effect and the requests; requests seen at {:?}; still pending at the end: {}; current index {}", before_cont, a.requests, a.k.verif_live_reload_requested(), a.k.cur_cfg_idx), vec![]);
                 return o;
             }
         }
@@ -663,6 +702,16 @@ impl Prop for C15 {
             }
             if a.notes.iter().any(|(t, m)| m.starts_with("ConfigFileReload") && *t >= a.requests[0] && *t <= cont_tick) {
                 o.set_fail("C15:notification-for-failed-reload", format!("fault {fault}: {}", show_notes()), vec![]);
+                return o;
+            }
+            // the file in effect is still the first one: a later plain reload (lrld) must reload
+            // that one, not the file that failed to load
+            if a.k.cur_cfg_idx != 0 {
+                o.set_fail(
+                    "C15:failed-reload-changed-the-current-file",
+                    format!("request {req}, fault {fault}: nothing was reloaded but kanata's current file is now #{} ({}): the next lrld reloads the broken file instead of the one in effect", a.k.cur_cfg_idx, paths.get(a.k.cur_cfg_idx).map(|p| p.display().to_string()).unwrap_or_default()),
+                    vec![],
+                );
                 return o;
             }
             // twin: the request key pushes a message instead
